@@ -112,7 +112,7 @@ def replay(job):
     real = getattr(mod, "real_" + job["func"], None)
     if real is not None:
         try:
-            res["real"] = real(**args)
+            res["real"] = real(**args)      # None = no public-entry replay applies to these arguments: the harness-level replay decides
         except Exception as e:
             res["real"] = {"reproduced": False, "error": repr(e), "tb": traceback.format_exc()[-1500:]}
     return res
